@@ -103,6 +103,10 @@ def thunks_table():
         'hung-M100': lambda: athlib.hungarian_score('M', 'OUT', '100', 10.5),
         'hung-FHJ': lambda: athlib.hungarian_score('F', 'OUT', 'HJ', 1.8),
         'sh-SLJ': lambda: sp.sportshall_score('SLJ', '2.00'),
+        # number carriers (whatever they score single-threaded, they score the same from any thread)
+        'sh-floats': lambda: (sp.sportshall_score('SLJ', 2.8), sp.sportshall_score('32H', 14.3), sp.sportshall_score('SP', 8)),
+        'tyr-floats': lambda: (athlib.tyrving_score('M', 15, '100', 12.3), athlib.tyrving_score('F', 12, 'HJ', 1.35)),
+        'score-decimal-ish': lambda: (athlib.athlon_score('M', '100', 10.51), athlib.athlon_score('F', 'LJ', 6.1, age=40)),
         'sh-800': lambda: sp.sportshall_score('800', '150'),
         'factor-M50-100': lambda: athlib.wma_age_factor('m', 50, '100'),
         'factor-F72-MAR': lambda: athlib.wma_age_factor('f', 72.5, 'MAR'),
@@ -207,6 +211,11 @@ SCENARIOS = [
     ('norm-diff', ['norm-a', 'norm-b'], 0),
     ('implements-diff', ['impl-a', 'impl-b'], 0),
     ('tyrving-qkids', ['tyr-M15-100-auto', 'qk-75'], 0),
+    # per-thread settings (decimal context, locale ...) adjusted by whoever makes the first call
+    ('sportshall-floats', ['sh-800', 'sh-floats'], 0),
+    ('sportshall-floats-2', ['sh-floats', 'sh-floats'], 0),
+    ('tyrving-floats', ['tyr-M15-100-hand', 'tyr-floats'], 0),
+    ('score-floats', ['score-FHJ', 'score-decimal-ish'], 0),
     # three threads
     ('score-3', ['score-M100', 'score-FHJ', 'needed-F800'], 0),
     ('factor-3', ['factor-M50-100', 'factor-F72-MAR', 'grade-F40-LJ'], 0),
